@@ -669,3 +669,119 @@ func AnyFact(e EdgeInfo, pred func(string) bool) bool {
 
 	return false
 }
+
+// LoopCarried reports whether the derivation of v (through value joins, append bases and elements,
+// slicing, conversions, loads of fields / elements — but not through index expressions, so loop
+// counters do not count) contains a cycle: the value handed on in one iteration of a loop depends on
+// what an earlier iteration computed. Joins of integer type are ignored (counters, offsets).
+func LoopCarried(v ssa.Value) (bool, ssa.Value) {
+	const (
+		white = iota
+		grey
+		black
+	)
+
+	color := map[ssa.Value]int{}
+
+	var (
+		walk  func(v ssa.Value, d int) bool
+		where ssa.Value
+	)
+
+	walk = func(v ssa.Value, d int) bool {
+		if v == nil || d > 64 {
+			return false
+		}
+
+		switch color[v] {
+		case grey:
+			where = v
+
+			return true
+		case black:
+			return false
+		}
+
+		var next []ssa.Value
+
+		switch x := v.(type) {
+		case *ssa.Phi:
+			if b, ok := x.Type().Underlying().(*types.Basic); ok && b.Info()&types.IsInteger != 0 {
+				return false
+			}
+
+			next = x.Edges
+		case *ssa.Call:
+			if b, ok := x.Call.Value.(*ssa.Builtin); ok && b.Name() == "append" {
+				next = x.Call.Args
+			}
+		case *ssa.Slice:
+			next = []ssa.Value{x.X}
+		case *ssa.Alloc:
+			if x.Comment == "varargs" || x.Comment == "slicelit" || x.Comment == "complit" {
+				if x.Referrers() != nil {
+					for _, r := range *x.Referrers() {
+						switch y := r.(type) {
+						case *ssa.IndexAddr:
+							if y.Referrers() != nil {
+								for _, rr := range *y.Referrers() {
+									if st, ok := rr.(*ssa.Store); ok && st.Addr == ssa.Value(y) {
+										next = append(next, st.Val)
+									}
+								}
+							}
+						case *ssa.FieldAddr:
+							if y.Referrers() != nil {
+								for _, rr := range *y.Referrers() {
+									if st, ok := rr.(*ssa.Store); ok && st.Addr == ssa.Value(y) {
+										next = append(next, st.Val)
+									}
+								}
+							}
+						}
+					}
+				}
+			}
+		case *ssa.MakeInterface:
+			next = []ssa.Value{x.X}
+		case *ssa.ChangeType:
+			next = []ssa.Value{x.X}
+		case *ssa.ChangeInterface:
+			next = []ssa.Value{x.X}
+		case *ssa.Convert:
+			next = []ssa.Value{x.X}
+		case *ssa.UnOp:
+			next = []ssa.Value{x.X}
+		case *ssa.FieldAddr:
+			next = []ssa.Value{x.X}
+		case *ssa.Field:
+			next = []ssa.Value{x.X}
+		case *ssa.IndexAddr:
+			next = []ssa.Value{x.X}
+		case *ssa.Index:
+			next = []ssa.Value{x.X}
+		case *ssa.Extract:
+			next = []ssa.Value{x.Tuple}
+		case *ssa.BinOp:
+			next = []ssa.Value{x.X, x.Y}
+		}
+
+		color[v] = grey
+
+		for _, n := range next {
+			if walk(n, d+1) {
+				return true
+			}
+		}
+
+		color[v] = black
+
+		return false
+	}
+
+	if walk(v, 0) {
+		return true, where
+	}
+
+	return false, nil
+}
